@@ -274,7 +274,7 @@ class C02(Sim):
                 # the caller keeps the arrays it handed over and refills them in place for the next batch (legal: the
                 # variable holds a reference). Only when the previous segment left k-row arrays of ours in every input
                 # variable and no input clips (clipping stores a new array).
-                ok = (k > 1 and len(held) == n_in and all(iv.value is h and h.shape == (k,) for iv, h in zip(A.input_variables, held))
+                ok = (k > 1 and len(held) == n_in and all(iv.value is h and h.shape == (k,) and h.dtype == np.float64 for iv, h in zip(A.input_variables, held))
                       and not any(iv.lock_range for iv in A.input_variables))
                 if not ok:
                     setter = "vars"
@@ -291,6 +291,10 @@ class C02(Sim):
                     st.hit("probes.input_arrays_refilled_in_place")
                 elif setter == "vars":
                     held = [arr[:, c].copy() for c in range(n_in)]
+                    if all(np.isfinite(h).all() and (h == np.floor(h)).all() and (np.abs(h) < 2**31).all() for h in held):
+                        # an all-integral batch handed over as integer arrays (users write np.array([0, 1, 2]))
+                        held = [h.astype(np.int64) for h in held]
+                        st.hit("probes.integer_typed_batch")
                     for c, iv in enumerate(A.input_variables):
                         iv.value = held[c]
                 elif setter == "matrix":
